@@ -350,6 +350,27 @@ fn sigmut() -> i32 {
         }
         std::fs::write(&p, &orig).unwrap();
     }
+    // foreign or truncated files (signature incomplete or absent): refused, and no file changes — not even in length
+    for ext in ["key", "val", "htx"] {
+        let p = dir.join(format!("m.{ext}"));
+        let orig = std::fs::read(&p).unwrap();
+        let mut foreign: Vec<Vec<u8>> = vec![b"stub\n".to_vec(), vec![0x7f], orig[..12].to_vec(), orig[..9].to_vec(), vec![0u8; 16], vec![0u8; 40], b"this is not a database file, it only happens to have the right name ..........".to_vec()];
+        let mut swapped = orig.clone(); swapped[..8].copy_from_slice(&orig[8..16]); foreign.push(swapped);
+        for (fi, content) in foreign.iter().enumerate() {
+            std::fs::write(&p, content).unwrap();
+            let before: Vec<Vec<u8>> = ["key", "val", "htx"].iter().map(|e| std::fs::read(dir.join(format!("m.{e}"))).unwrap()).collect();
+            let r = std::panic::catch_unwind(std::panic::AssertUnwindSafe(|| {
+                let db = abyssiniandb::open_file(&dir)?;
+                let mut m = db.db_map_string_with_params("m", params.clone())?;
+                m.get("k")
+            }));
+            let accepted = matches!(r, Ok(Ok(_)));
+            let after: Vec<Vec<u8>> = ["key", "val", "htx"].iter().map(|e| std::fs::read(dir.join(format!("m.{e}"))).unwrap()).collect();
+            if accepted { bad.push(format!("foreign content #{fi} ({} bytes) as m.{ext} accepted", content.len())); }
+            else if before != after { bad.push(format!("foreign content #{fi} ({} bytes) as m.{ext} refused but files changed (lengths {:?} -> {:?})", content.len(), before.iter().map(|b| b.len()).collect::<Vec<_>>(), after.iter().map(|b| b.len()).collect::<Vec<_>>())); }
+        }
+        std::fs::write(&p, &orig).unwrap();
+    }
     // every ordered pair of key types except the recorded finding K2 (u64 / vu64)
     for (i, j) in [(0, 1), (0, 2), (0, 3), (1, 0), (1, 2), (2, 0), (2, 1), (2, 3), (3, 0), (3, 2), (4, 0), (4, 1), (4, 2), (0, 4), (1, 4), (2, 4), (1, 3), (3, 1)] {
         let d2 = tmpdir("sigpair");
